@@ -17,7 +17,7 @@ import random
 
 import numpy as np
 
-from ..engine import post, check_function, source_info
+from ..engine import check_enumeration, post, check_function, source_info
 from ..harness import lp, ro, dro, socp, gcp, rsome
 from .. import snap as S
 from ..spec import views
@@ -46,7 +46,9 @@ def SOURCES():
 
 # ----------------------------------------------------------------------------- canonical form of a program
 
-def canon(F):
+def canon(F, user_cols=None):
+    """user_cols: the columns of the user's variables in declaration order -- they are put first, so that a variable that was
+    declared late (and therefore sits behind the auxiliary columns of an earlier formulation) is compared by identity"""
     A = np.asarray(views.dense(F.linear), dtype=float)
     nv = A.shape[1]
     obj = np.asarray(F.obj, dtype=float).reshape(-1)
@@ -57,6 +59,9 @@ def canon(F):
         lmi_cols |= {j for j in range(L.shape[1]) if np.any(L[:, j] != 0)}
     keep = [j for j in range(nv) if np.any(A[:, j] != 0) or obj[j] != 0 or j in cone_cols or j in lmi_cols
             or float(F.ub[j]) != np.inf or float(F.lb[j]) != -np.inf or str(F.vtype[j]) != "C"]
+    if user_cols is not None:
+        uc = [int(j) for j in user_cols]
+        keep = uc + [j for j in keep if j not in set(uc)]
     pos = {j: k for k, j in enumerate(keep)}
     # rows without coefficients that hold trivially (0 <= c with c >= 0, 0 == 0) say nothing
     live = [i for i in range(A.shape[0]) if np.any(A[i] != 0) or not
@@ -315,6 +320,90 @@ def setup_diff(h):
         return [f"{type(e).__name__}: {e}"]
 
 
+# ----------------------------------------------------------------------------- deterministic layer models
+
+def layer_histories():
+    """lp.Model / socp.Model / gcp.Model used directly: formulations, dual requests and solves interleaved with further
+    declarations (incl. variables declared after a formulation); the final formulation and the dual requested first must
+    equal those of the same model declared in one go (user variables matched by identity, auxiliary columns in order)."""
+    from ..harness import socp, gcp
+    out = []
+    layers = {"lp": lp.Model, "socp": socp.Model, "gcp": gcp.Model}
+    cvec = np.array([1.0, -2.0])
+
+    def decl(layer):
+        ops = [("obj", lambda w: w["m"].min(w["t"] + 0.5 * w["x"].sum())),
+               ("k1", lambda w: w["m"].st(rsome.norm(w["x"] - cvec, 1) <= w["t"])),
+               ("k2", lambda w: (w["m"].st(w["x"][0] >= 2), w["m"].st(w["x"] <= 9))),
+               ("y", lambda w: w.__setitem__("y", w["m"].dvar(2))),
+               ("k3", lambda w: (w["m"].st(w["y"] >= np.array([5.0, 7.0])), w["m"].st(rsome.norm(w["y"] - w["x"], "inf") <= w["t"] + 20))),
+               ("k4", lambda w: w["m"].st(abs(w["y"][0] - w["x"][1]) <= 30))]
+        if layer in ("socp", "gcp"):
+            ops.insert(2, ("q1", lambda w: w["m"].st(rsome.norm(w["x"], 2) <= w["t"] + 10)))
+            ops.append(("q2", lambda w: w["m"].st(rsome.sumsqr(w["y"] - 6) <= 40)))
+        if layer == "gcp":
+            ops.append(("e1", lambda w: w["m"].st(rsome.exp(w["x"][1] - 9) <= w["t"] + 5)))
+        return ops
+
+    forms = {"do_math": lambda w: w["m"].do_math(), "dual": lambda w: w["m"].do_math(primal=False), "solve": lambda w: w["m"].solve(Oracle, display=False),
+             "dual-twice": lambda w: (w["m"].do_math(primal=False), w["m"].do_math(primal=False))}
+
+    def world(layer):
+        m = layers[layer]()
+        return {"m": m, "x": m.dvar(2), "t": m.dvar()}
+
+    def user_cols(w):
+        cols = [w["t"].first] + [w["x"].first + i for i in range(2)]
+        if "y" in w:
+            cols += [w["y"].first + i for i in range(2)]
+        return cols
+
+    for layer in layers:
+        D_ = decl(layer)
+        n = len(D_)
+        plans = [((), ())]
+        for pos in range(1, n + 1):
+            for f in forms:
+                plans.append(((pos,), (f,)))
+        for p1 in range(1, n + 1):
+            for p2 in range(p1, n + 1):
+                for f1, f2 in (("solve", "do_math"), ("do_math", "dual"), ("dual", "solve"), ("solve", "solve")):
+                    plans.append(((p1, p2), (f1, f2)))
+
+        def run(plan, end):
+            w = world(layer)
+            for i, (_name, op) in enumerate(D_):
+                op(w)
+                for pos, f in zip(*plan):
+                    if pos == i + 1:
+                        forms[f](w)
+            F = w["m"].do_math() if end == "primal" else w["m"].do_math(primal=False)
+            return F, w
+
+        def enumerate_all(layer=layer, plans=plans):
+            for end in ("primal", "dual-first"):
+                Ff, wf = run(((), ()), end)
+                ref = canon(Ff, user_cols(wf) if end == "primal" else None)
+                for plan in plans[1:]:
+                    Fi, wi = run(plan, end)
+                    got = canon(Fi, user_cols(wi) if end == "primal" else None)
+                    if end == "dual-first":
+                        # the dual's columns are the primal's rows: only sizes, objective multiset and cone counts are order-free
+                        same = (len(got["rows"]) == len(ref["rows"]) and sorted(got["obj"]) == sorted(ref["obj"])
+                                and len(got["qmat"]) == len(ref["qmat"]) and len(got["xmat"]) == len(ref["xmat"])
+                                and sorted(map(sorted, got["rows"])) == sorted(map(sorted, ref["rows"])))
+                        if not same:
+                            return f"{layer}: formulations {plan} then the dual first: differs from the dual of the model declared in one go"
+                    else:
+                        d = canon_diff(got, ref)
+                        if d:
+                            return f"{layer}: formulations {plan}: final program differs from the model declared in one go: {d[:2]}"
+            return True
+        out += check_enumeration(f"rsome.{layer}:Model.<history>", "final-formulation-and-dual-equal-those-of-the-model-declared-in-one-go",
+                                 f"{layer}.Model: {len(plans) - 1} formulation plans x (primal, dual first)", enumerate_all)
+    return out
+
+
 # ----------------------------------------------------------------------------- frames
 
 def frames():
@@ -531,7 +620,7 @@ def jobs(tier):
     n = 8 if tier == "quick" else 48
     for i in range(n):
         js.append({"name": f"ro-histories-{i}", "kind": "ro", "histories": [[list(o) for o in h] for h in hs[i::n]]})
-    js += [{"name": "frames", "kind": "frames"}, {"name": "dro-histories", "kind": "dro"}]
+    js += [{"name": "frames", "kind": "frames"}, {"name": "dro-histories", "kind": "dro"}, {"name": "layer-histories", "kind": "layers"}]
     return js
 
 
@@ -540,6 +629,8 @@ def run_job(job):
         return run_ro_histories([[tuple(o) for o in h] for h in job["histories"]])
     if job["kind"] == "frames":
         return frames()
+    if job["kind"] == "layers":
+        return layer_histories()
     if job["kind"] == "dro":
         return run_dro_histories()
     raise ValueError(job["kind"])
